@@ -361,6 +361,10 @@ func TestCheck(t *testing.T) {
 		sql.Close()
 		r.Finish()
 	}
+	twoHandlePart14(r, t) // operator mutation through a second SQLite handle against a worker's settlement (schedules)
+	if _, child := runner.IsShard(); child {
+		return
+	}
 	r.RunJobs(shards, shards, time.Until(deadline)+3*time.Minute)
 	if _, child := runner.IsShard(); !child {
 		adminPart(r)
